@@ -295,6 +295,23 @@ fn directed<S: Setup>() -> Vec<CaseResult> {
             ],
         ),
         (
+            "two-chains-split-by-one-mul",
+            vec![
+                c(0),
+                Stmt::Public,
+                Stmt::Public,
+                Stmt::Public,
+                Stmt::Horner { acc: 0, alpha: 1, z: 2, x: 3 },
+                Stmt::Horner { acc: 4, alpha: 1, z: 3, x: 2 },
+                Stmt::Horner { acc: 5, alpha: 1, z: 2, x: 2 },
+                Stmt::Mul(2, 3),
+                Stmt::Horner { acc: 0, alpha: 2, z: 3, x: 1 },
+                Stmt::Horner { acc: 8, alpha: 2, z: 1, x: 3 },
+                Stmt::Horner { acc: 9, alpha: 2, z: 7, x: 3 },
+                Stmt::Horner { acc: 10, alpha: 2, z: 1, x: 1 },
+            ],
+        ),
+        (
             "connect-two-publics",
             vec![Stmt::Public, Stmt::Public, Stmt::Connect(0, 1), Stmt::Add(0, 1)],
         ),
@@ -342,7 +359,13 @@ fn directed<S: Setup>() -> Vec<CaseResult> {
                 }
             }
         }
-        for cfg in [PackCfg::default_cfg(), PackCfg { public_lanes: 2, alu_lanes: 3, min_height: 8, horner_k: 3, optimized_profile: false }] {
+        let mut cfgs = vec![PackCfg::default_cfg(), PackCfg { public_lanes: 2, alu_lanes: 3, min_height: 8, horner_k: 3, optimized_profile: false }];
+        if name.contains("chain") {
+            for (l, k) in [(2, 2), (4, 2), (2, 3), (3, 5), (4, 4)] {
+                cfgs.push(PackCfg { public_lanes: 1, alu_lanes: l, min_height: 1, horner_k: k, optimized_profile: false });
+            }
+        }
+        for cfg in cfgs {
             let key = format!("{}:directed:{name}:{}", S::NAME, cfg.key());
             out.push(one::<S>(&prog, &publics, &privates, &cfg, key, false).count(format!("directed/{name}"), 1));
         }
